@@ -435,6 +435,7 @@ func c05(r *core.Report) {
 	c05Found(r)
 	c05NumKinds(r)
 	c05Joined(r)
+	c05NoTrim(r)
 	_ = p
 }
 
